@@ -71,6 +71,21 @@ def run(rep):
             pol = rng.choice(["safe", "keep:" + b"sRGB".hex() + "+" + b"iCCP".hex(), "keep:" + b"sRGB".hex(), "strip:" + b"tEXt".hex(), "none"])
             o = f"preset={rng.choice([0, 2, 3])},bd=1,ct=1,pal=1,gray=0,interlace=keep,recode=1,strip={pol}"
             cs.add(f"optlog {o} - {png.hex()}", png=png, opts=o, bd="1", ctr="1", pal="1", gray="0", inter="keep", orig=png, tok=tok)
+    # palette changes disabled while the pixels use only the first few entries of a much larger palette (depths 8, 4, 2): a depth
+    # reduction that looks at the used indices instead of the palette size would have to cut the palette
+    for j in range(12 if quick else 120):
+        depth = (8, 8, 4, 2)[j % 4]
+        cap = 1 << depth
+        ncol = min(cap, rng.choice([40, 17, 200, 256, 5, 3]))
+        used = rng.choice([1, 2, 2, 4, 6]) if ncol > 2 else 1
+        used = min(used, ncol)
+        w, h = rng.choice([(16, 16), (24, 10)])
+        pal = [tuple(rng.randrange(256) for _ in range(3)) + (rng.choice([255, 255, 128]),) for _ in range(ncol)]
+        idx = [[(rng.randrange(used),) for x in range(w)] for y in range(h)]
+        tok = pg.img_token(w, h, 3, depth, False, pal, pg.pack_image(idx, w, h, 3, depth, False))
+        png = e2e.png_from_token(rng, tok)
+        o = f"preset={rng.choice([0, 2, 3, 5])},bd=1,ct={rng.choice('01')},pal=0,gray={rng.choice('01')},interlace=keep,recode=1,force={rng.choice('01')}"
+        cs.add(f"optlog {o} - {png.hex()}", png=png, opts=o, bd="1", ctr=o.split("ct=")[1][0], pal="0", gray=o.split("gray=")[1][0], inter="keep", orig=png, tok=tok)
     # the documented identity: --nx --nz (all off, keep interlacing, no recoding)
     for j in range(20 if quick else 300):
         ct, depth = pg.LEGAL[j % 15]
